@@ -54,7 +54,9 @@ PROPS['C06'] = dict(
 )
 
 PROPS['C04'] = dict(
-    theorems=[],
+    theorems=['ackqueue_refines_spec', 'at_most_one_outcome', 'outcome_fires', 'outcome_only', 'expiry_window', 'duplicate_rejected', 'isolation', 'entry_evolves_alone'],
+    level_text='Theorems: the implementation model of ack.Queue over the bucketed timeout list refines, step for step and for every register/acknowledge/sweep history, a one-map specification (same return codes, same callbacks in the same order); on that specification every registration is reported at most once, exactly when a matching acknowledgement or a sweep past its rounded deadline occurs, duplicates are rejected without effect, and the fate of a key depends only on the operations on that key and the sweeps (isolation). The Go queue is compared with model and specification on exhaustive small histories and seeded random ones (return codes and callback order).',
+    level_note='Trusted: Coq kernel + vm_compute; harness/emitter/evaluator. Modelled: heap+map of buckets as a sorted list, lock-free hash as an association list; time.Time as nanoseconds (one Location). Concurrent use is C20. expiration/skiplist.go (unwired) is not modelled.',
     families=[dict(name='ackqueue', corr='AckQueue', runs=[('exhaustive', 1, 1), ('random', 800, 12000)])],
     rule='exhaustive: every sequence of <=3 (quick) / <=4 (thorough) operations drawn from 13 register/acknowledge/sweep operations over a 2x2 key space with two deadlines in the same second and one in the next, closed by a final sweep; random: 1-40 operations over 3 sessions x 4 identifiers, deadlines on a 250 ms grid around a slowly advancing clock (equal, same-second, past and future deadlines, +-1 ns offsets), 15% wrong packet types, unknown identifiers, identifier 0, QoS 0, non-acknowledgement packets. Non-trivial: >=2 registrations and >=1 callback.',
 )
